@@ -1,0 +1,35 @@
+//go:build verif
+
+package operation
+
+// Contracts of the operation service (checked by /verif/gocv; comment-only file).
+//
+// The pool of pending operations lives in the node's state store. What the service hands out is read from the store
+// in the very call that asks for it: the node changes the objects it gets (it fills in the answer before checking and
+// posting it), and such a change must never survive in a copy kept by the service (C15: an answer reaches the board
+// once; a failed attempt leaves the pending operation as issued).
+//   $repoReads = reads of the stored pool so far
+//@ ghost var $repoReads int
+//@ func (github.com/lidofinance/dc4bc/client/repositories/operation.OperationRepo).GetOperations
+//@   assumed
+//@   pure
+//@   epilogue $repoReads = old($repoReads) + 1
+//@ func (github.com/lidofinance/dc4bc/client/repositories/operation.OperationRepo).GetOperationByID
+//@   assumed
+//@   pure
+//@   epilogue $repoReads = old($repoReads) + 1
+
+//@ func (*BaseOperationService).GetOperations
+//@   nosafety
+//@   safety C15
+//@   requires s != nil
+//@   pure
+//@   modifies $repoReads
+//@   ensures[C15.pool.fromstore] $repoReads > old($repoReads)
+//@ func (*BaseOperationService).GetOperationByID
+//@   nosafety
+//@   safety C15
+//@   requires s != nil
+//@   pure
+//@   modifies $repoReads
+//@   ensures[C15.pool.fromstore] $repoReads > old($repoReads)
